@@ -7,6 +7,49 @@ from pathlib import Path
 VERIF = Path(__file__).resolve().parents[1]
 
 CHECKS = {
+    "C05": dict(
+        category="exploration", design_ref="DESIGN.md §2 C05",
+        technique="history monitor: deletion set of each collect() vs reachable/in-flight sets computed by an independent reader, over table-location spellings",
+        text="Generated operation histories (incl. open transactions, failed commits, ageing) are run against real "
+             "tables under 15 local location spellings and 6 S3 prefix spellings; around every collection the set of "
+             "files that disappeared is intersected with R (every file of every retained snapshot, by the independent "
+             "reader) and F (files of open transactions); retained snapshots are re-read afterwards and planted old "
+             "orphans must be gone. Histories are a seeded sample: exploration.",
+        note="Trusts the independent reader's reachability computation and os.utime / virtual LastModified ageing.",
+    ),
+    "C07": dict(
+        category="fault_enumeration", design_ref="DESIGN.md §2 C07",
+        technique="enumerated fault injection at every L1 storage call of collect() + damage classes on every reachable metadata-plane file, with a before/after file-set oracle",
+        text="A dry run measures the L1 calls of one collect() on a prepared table (5 snapshots, orphans, an open "
+             "transaction with aged files, an in-commit manifest protected only by its marker); every call is failed "
+             "once / persistently (OSError; transient and permanent S3 errors), every manifest list / manifest / the "
+             "current metadata file is damaged in 5 ways, listings are made to return escaping paths and marker "
+             "read/stat/delete/list are failed. Oracle: nothing reachable or in flight ever disappears; if the "
+             "independent reader cannot parse a reachable file the collection must raise.",
+        note="One scenario shape; single faults only. 'Raised after deleting only true orphans' is counted, not "
+             "judged (the property's disjunction allows it).",
+    ),
+    "C09": dict(
+        category="exploration", design_ref="DESIGN.md §2 C09",
+        technique="history monitor: every retained snapshot re-read (files, hashes, rows, lookups by id / timestamp) after every step + online write-once monitor",
+        text="At commit the model records each snapshot's file set, SHA-1 of every reachable file and row multiset; "
+             "after every later step of generated histories (local and S3 double, real and coarse clocks) each "
+             "retained snapshot is re-read by the independent reader and through snapshot_by_id / time_travel with "
+             "5 probe timestamps per snapshot; overwriting an existing data or manifest file is flagged when it "
+             "happens.",
+        note="Timestamp lookup presumes non-decreasing timestamps (backwards clocks are exercised in C15 only).",
+    ),
+    "C15": dict(
+        category="exploration", design_ref="DESIGN.md §2 C15",
+        technique="invariant monitor over generated histories (independent metadata parser) + exhaustive enumeration of small snapshot forests through the real repointing function",
+        text="(a) after every step of generated histories under real / coarse / frozen / backwards clocks the "
+             "metadata JSON is parsed independently and the well-formedness predicate (current retained, parents are "
+             "retained true ancestors, sequence numbers, snapshot log, entry inheritance, exact deletes, metadata "
+             "log) is evaluated against the model's commit order; (b) every parent map over <=4 (quick) / <=5 "
+             "(thorough) nodes x every kept subset is run through the real repoint function against a reference "
+             "model - exhaustive for that space.",
+        note="Commit order = order in which the independent reader first sees each snapshot.",
+    ),
     "C12": dict(
         category="exploration", design_ref="DESIGN.md §2 C12",
         technique="differential runtime monitor: 16 scan API/option variants vs a Python SQL-3VL evaluator over generated tables and filters",
